@@ -270,6 +270,7 @@ for _k, _v in PROPS.items():
 # the properties whose Props file also asserts the sliced field programs of their own functions: when that
 # pass T8: which Go functions are regenerated as value-level Lean definitions and proved equal to the property's model
 T8 = {
+    "C08": "schnorr.ParsePubKey",
     "C05": "FieldVal.SetByteSlice (the wrapper around the SetBytes kernel)",
     "C06": "the non-kernel ModNScalar wrappers Mul, Add, Negate, Square, SquareVal, Bytes, SetByteSlice, InverseValNonConst, InverseNonConst",
     "C01": "sign, signRFC6979 (retry loop), Sign, SignCompact, PrivateKey.Sign (crypto.Signer front end), PrivateKey.PubKey, fieldToModNScalar",
